@@ -34,6 +34,14 @@ ArchCalls ==
              ns \in {<<A>>, <<B>>}, l \in BOOLEAN}
     \cup {[m |-> "containing_modules", names |-> <<A, B>>, list |-> TRUE]}
 
+\* "arch3": three layers and three modules, calls alternating layer(..) / containing_modules(..) - all definitions
+\* with up to three layers (needed for guards that must look at EVERY earlier layer, not only the previous one)
+C3 == <<"r", "c">>
+Arch3Calls(n) ==
+    IF n % 2 = 0 THEN {[m |-> "layer", name |-> nm] : nm \in {"L1", "L2", "L3"}}
+    ELSE {[m |-> "containing_modules", names |-> <<x>>, list |-> l] : x \in {A, B, C3}, l \in BOOLEAN}
+             \cup {[m |-> "have_modules_with_names_matching", regex |-> <<"regex">>]}
+
 Defined == {"L1", "L2"}
 LRuleCalls ==
     {[m |-> m] : m \in {"based_on", "layers_that", "should", "should_not", "access_layers_that",
@@ -46,11 +54,11 @@ LRuleCalls ==
 DiagCalls == {[m |-> "from_file", file |-> "good"], [m |-> "from_file", file |-> "notags"],
               [m |-> "with_base_module"], [m |-> "base_module_included_in_module_names"]}
 
-Calls(s) == CASE Which = "rule" -> RuleCalls(s) [] Which = "arch" -> ArchCalls
+Calls(s) == CASE Which = "rule" -> RuleCalls(s) [] Which = "arch" -> ArchCalls [] Which = "arch3" -> Arch3Calls(Len(hist))
               [] Which = "lrule" -> LRuleCalls [] Which = "diag" -> DiagCalls
-StepOf(s, c) == CASE Which = "rule" -> RuleStep(s, c) [] Which = "arch" -> ArchStep(s, c)
+StepOf(s, c) == CASE Which = "rule" -> RuleStep(s, c) [] Which \in {"arch", "arch3"} -> ArchStep(s, c)
                   [] Which = "lrule" -> LRuleStep(s, c) [] Which = "diag" -> DiagStep(s, c)
-InitSt == CASE Which = "rule" -> RInit [] Which = "arch" -> AInit [] Which = "lrule" -> LInit [] Which = "diag" -> DInit
+InitSt == CASE Which = "rule" -> RInit [] Which \in {"arch", "arch3"} -> AInit [] Which = "lrule" -> LInit [] Which = "diag" -> DInit
 
 Init == st = InitSt /\ hist = <<>>
 Call(c) == /\ Len(hist) < MaxLen
@@ -80,10 +88,10 @@ RuleClassTotal ==
     Which = "rule" => \A I \in {{}, {<<A, B>>}} :
         (~RuleMayError(st, T)) => RuleVerdicts(st, T, I) # {}
 \* LayeredArchitecture: every reachable definition is well-formed (C16)
-ArchAlwaysWF == Which = "arch" => ArchWF(st)
+ArchAlwaysWF == Which \in {"arch", "arch3"} => ArchWF(st)
 \* LayeredArchitecture: the definition lists exactly what accepted calls supplied, in order (C16)
 ArchIsHistory ==
-    Which = "arch" =>
+    Which \in {"arch", "arch3"} =>
       LET acc == SelectSeq(hist, LAMBDA h : h.out = "ok" /\ h.c.m \in {"containing_modules", "have_modules_with_names_matching"})
       IN /\ Len(st.layers) = Len(acc)
          /\ \A i \in DOMAIN acc : st.layers[i].items = (IF acc[i].c.m = "containing_modules" THEN acc[i].c.names ELSE <<acc[i].c.regex>>)
